@@ -264,9 +264,9 @@ Theorem C20_bind_spec_meaning : forall s e f,
 Proof. exact bind_spec_iff. Qed.
 Print Assumptions C20_bind_spec_meaning.
 
-(** a bound label is refused and keeps its factor *)
+(** a bound label is refused and nothing changes *)
 Theorem C20_binding_bound : forall s e f, dmem Nat.eqb (st_facs s) (el_name e) = true ->
-  snd (add_factor s e f) = RErr ValueErr /\ st_facs (fst (add_factor s e f)) = st_facs s.
+  add_factor s e f = (s, RErr ValueErr).
 Proof. exact add_factor_bound. Qed.
 Print Assumptions C20_binding_bound.
 
@@ -280,18 +280,21 @@ Theorem C20_binding_refuted_old :
 Proof. exact binding_refuted_old. Qed.
 Print Assumptions C20_binding_refuted_old.
 
-(** effect of a successful / failed binding on the tables *)
+(** a successful binding stores the factor and registers the label, and changes nothing else *)
 Theorem C20_binding_post : forall s e f, snd (add_factor s e f) = RNone ->
   let s' := fst (add_factor s e f) in
   dget Nat.eqb (st_facs s') (el_name e) = Some f /\
   (forall m, m <> el_name e -> dget Nat.eqb (st_facs s') m = dget Nat.eqb (st_facs s) m) /\
-  st_doms s' = st_doms s /\ el_find (st_els s') (el_name e) = Some e.
+  st_doms s' = st_doms s /\ st_nls s' = st_nls s /\
+  el_find (st_els s') (el_name e) = Some e /\
+  (forall m, m <> el_name e -> el_find (st_els s') m = el_find (st_els s) m).
 Proof. exact add_factor_post. Qed.
 Print Assumptions C20_binding_post.
 
+(** a failing binding raises ValueError and leaves all four tables unchanged (the label is
+    registered only on success, /repo 6c89611) *)
 Theorem C20_binding_fails : forall s e f, snd (add_factor s e f) <> RNone ->
-  snd (add_factor s e f) = RErr ValueErr /\
-  st_facs (fst (add_factor s e f)) = st_facs s /\ st_doms (fst (add_factor s e f)) = st_doms s.
+  add_factor s e f = (s, RErr ValueErr).
 Proof. exact add_factor_fails. Qed.
 Print Assumptions C20_binding_fails.
 
@@ -300,6 +303,11 @@ Theorem C20_add_domain : forall s n d,
   snd (add_domain s n d) = RNone <-> dmem Nat.eqb (st_doms s) n = false.
 Proof. exact add_domain_iff. Qed.
 Print Assumptions C20_add_domain.
+
+Theorem C20_add_domain_fails : forall s n d, dmem Nat.eqb (st_doms s) n = true ->
+  add_domain s n d = (s, RErr ValueErr).
+Proof. exact add_domain_fails. Qed.
+Print Assumptions C20_add_domain_fails.
 
 Theorem C20_add_domain_post : forall s n d, dmem Nat.eqb (st_doms s) n = false ->
   let s' := fst (add_domain s n d) in
@@ -311,7 +319,7 @@ Print Assumptions C20_add_domain_post.
 
 Theorem C20_new_finite_domain : forall s n k items,
   (snd (new_finite_domain s n k items) = RDom (mk_finite k items) <-> dmem Nat.eqb (st_doms s) n = false) /\
-  (dmem Nat.eqb (st_doms s) n = true -> snd (new_finite_domain s n k items) = RErr ValueErr).
+  (dmem Nat.eqb (st_doms s) n = true -> new_finite_domain s n k items = (s, RErr ValueErr)).
 Proof. exact new_finite_domain_iff. Qed.
 Print Assumptions C20_new_finite_domain.
 
@@ -333,6 +341,11 @@ Theorem C20_shape_after_binding_finite : forall s e doms w sh d,
   shape_of (fst (add_factor s e (FFinite doms sh d))) (SEdgeLabel e) = Ok (map Some sh).
 Proof. exact shape_after_binding_finite. Qed.
 Print Assumptions C20_shape_after_binding_finite.
+
+Theorem C20_new_finite_factor_fails : forall s n w,
+  (forall f, snd (new_finite_factor s n w) <> RFac f) -> fst (new_finite_factor s n w) = s.
+Proof. exact new_finite_factor_fails. Qed.
+Print Assumptions C20_new_finite_factor_fails.
 
 Theorem C20_new_finite_factor : forall s n w f,
   snd (new_finite_factor s n w) = RFac f <->
